@@ -107,7 +107,8 @@ def elbo(ctx):
     for stl in (False, True):
         log = {}
         install(it, log)
-        target = lambda v: None  # noqa: E731
+        # the user's target is a function of ONE point; applied to the whole batch it is some other (uninterpreted) value
+        target = lambda v: Vec(z3.Function("target_applied_to_the_whole_batch_as_one_point", T, T)(v.e))  # noqa: E731
         log["target"] = target
         self = cls(target, SV(n), stick_the_landing=stl)
         paths = it.explore(lambda: method(cls, "__call__")(self, TreeV(p), TreeV(s), TreeV(k)))
